@@ -127,4 +127,5 @@ class Obligation:
 
     def to_json(self):
         return {"id": self.oid, "kind": self.kind, "verdict": self.verdict, "backend": self.backend,
-                "seconds": round(self.seconds or 0, 4), "line": self.line}
+                "seconds": round(self.seconds or 0, 4), "confirm_seconds": getattr(self, "confirm_seconds", 0), "line": self.line,
+                "reason": (str(getattr(self, "reason", "") or "")[:200] if self.verdict == "unknown" else None)}
